@@ -2,7 +2,7 @@
    Only the property theorems live here; each is closed by lemmas of IO/MidiFileProofs.v about the
    executable model IO/MidiFile.v (writer = MidiFileOutputDevice, reader = MidiFileInputDevice.read,
    call trace of a note/chord sequence).  Times are file ticks. *)
-From Isobar Require Import Base.Prelude IO.MidiFile IO.MidiFileProofs IO.ReaderHistory IO.ReaderHistoryProofs.
+From Isobar Require Import Base.Prelude IO.MidiFile IO.MidiFileProofs IO.ReaderHistory IO.ReaderHistoryProofs IO.LongPiece IO.LongPieceProofs Generated.TablesPat.
 
 (* ------------------------------------------------------------------------------------------ *)
 (** ** Reading any file *)
@@ -221,6 +221,56 @@ Proof. exact hist_roundtrip_q. Qed.
 Print Assumptions C16_history_roundtrip_quantized.
 
 (* ------------------------------------------------------------------------------------------ *)
+(** ** Size: pieces longer than any internal limit of the library
+
+    The theorems above are about lists of ANY length.  What a piece of 70 000 events needs in addition: a criterion for
+    [events_ok] that is linear in the number of notes, closed forms of the written file that a check can afford, and a
+    concrete family of pieces of every length (IO/LongPiece.v). *)
+
+(* every note ends no later than its event and the pitches of one event are distinct: then no two notes of one pitch overlap *)
+Theorem C16_events_short_ok : forall es, events_short es = true -> events_ok es = true.
+Proof. exact events_short_ok. Qed.
+Print Assumptions C16_events_short_ok.
+
+(* EVERY voice of EVERY event - however many there are - is in the written file as a note_on with its pitch and velocity
+   at its onset tick, in order, and nothing else is; in particular the file holds as many note_ons as the piece has notes *)
+Theorem C16_all_voices_written : forall es, events_ok es = true ->
+  ons_of (absolute 0 (file_of_events es)) = map vkey (place_all es 0)
+  /\ List.length (ons_of (absolute 0 (file_of_events es))) = List.length (place_all es 0).
+Proof. intros es H. rewrite (voices_written es H). split; [reflexivity | apply map_length]. Qed.
+Print Assumptions C16_all_voices_written.
+
+(* the endless score of IO/LongPiece.v, from any start, at ANY length n: it is a legal piece, the file is as long as the
+   music, it holds every note, and reading it back returns all n events *)
+Theorem C16_long_piece : forall n i, 0 <= i -> n <> O ->
+  let es := long_piece i n in
+  events_ok es = true
+  /\ read_file [file_of_events es] = ROk (expected es)
+  /\ ons_of (absolute 0 (file_of_events es)) = map vkey (place_all es 0)
+  /\ sumd (file_of_events es) = sched_end es /\ total_dur es <= sched_end es
+  /\ List.length es = n.
+Proof.
+  intros n i Hi Hn es.
+  assert (Hok : events_ok es = true) by (apply events_short_ok, long_piece_short; exact Hi).
+  split; [exact Hok|]. split; [apply C16_roundtrip_file; [exact Hok | apply long_piece_sounds; exact Hn]|].
+  split; [apply voices_written; exact Hok|].
+  destruct (C16_trailing_silence es) as [A [B _]]. split; [exact A|]. split; [exact B | apply long_piece_length].
+Qed.
+Print Assumptions C16_long_piece.
+
+(* ... in particular beyond Pattern.LENGTH_MAX (the constant of the source under test, Generated/TablesPat.v) *)
+Corollary C16_beyond_length_max : forall k, 0 < k ->
+  let es := long_piece 0 (Z.to_nat (LENGTH_MAX + k)) in
+  read_file [file_of_events es] = ROk (expected es) /\ Z.of_nat (List.length es) = LENGTH_MAX + k.
+Proof.
+  intros k Hk es. assert (L : 0 < LENGTH_MAX) by (vm_compute; reflexivity).
+  assert (N : Z.to_nat (LENGTH_MAX + k) <> O) by lia.
+  destruct (C16_long_piece (Z.to_nat (LENGTH_MAX + k)) 0 ltac:(lia) N) as [_ [R [_ [_ [_ Ln]]]]].
+  split; [exact R|]. unfold es. rewrite Ln. lia.
+Qed.
+Print Assumptions C16_beyond_length_max.
+
+(* ------------------------------------------------------------------------------------------ *)
 (** ** Non-vacuity *)
 
 Definition ex_events : list event :=
@@ -276,3 +326,12 @@ Example C16_roundtrip_quantized_nonvacuous :
   /\ read_file_q 120 [file_of_events ex_events] = ROk (expected ex_events)
   /\ read_file_q 240 [file_of_events ex_events] <> ROk (expected ex_events).
 Proof. repeat split; try (vm_compute; reflexivity). vm_compute. discriminate. Qed.
+
+(* the first ten events of the endless score: single notes and one two-note chord (event 3) *)
+Example C16_long_piece_nonvacuous :
+  events_short (long_piece 0 10) = true
+  /\ map e_dur (long_piece 0 10) = [2; 3; 4; 2; 3; 4; 2; 3; 4; 2]
+  /\ e_voices (long_event 3) = [mkVoice 43 4 2; mkVoice 98 16 2]
+  /\ piece_summary (long_piece 0 10) = [11; ck_keys (map vkey (place_all (long_piece 0 10) 0)); 29; 10; 29;
+                                        ck_values [1; 12; 23; 43; 98; 45; 56; 67; 78; 89; 100]; ck_values [1; 2; 3; 2; 2; 2; 2; 1; 2; 1; 2]; 1].
+Proof. vm_compute. repeat split. Qed.
